@@ -42,6 +42,13 @@ class CreateUE(Stream):
                 return special[(i + j) % len(special)] if i % 3 == j else rng.bytes(16).hex()
             cases.append({"imsi": imsi(mnclen, msinlen, style), "start": start, "count": count,
                           "k": key(0), "opc": key(1) if (i % 3 == 1 or rng.chance(1, 2)) else "", "op": key(2), "kind": style})
+        # credential sets that differ only in WHICH of OPc / OP carries a value (the same K, the same 32 hex digits once as OPc
+        # and once as OP): different subscriptions, created one after the other in the same process
+        for j in range(3):
+            k_, x = rng.bytes(16).hex(), rng.bytes(16).hex()
+            im = imsi(2 + j % 2, 10, "random")
+            for opc_, op_ in ((x, ""), ("", x), (x, x), ("", x)):
+                cases.append({"imsi": im, "start": j, "count": 2, "k": k_, "opc": opc_, "op": op_, "kind": "opc-or-op"})
         for i in range(big):
             # whole population through the implementation: pairwise distinctness is checked on the Go output
             # directly; the model is compared on 40 windows of 3 indices spread over the population
